@@ -26,15 +26,32 @@ const repoPkgPrefix = "github.com/idena-network/idena-go/"
 type raceReport struct {
 	Key  string
 	Text string
+	// Harness: one of the two accesses was made by harness code itself (the innermost frame outside
+	// the standard library belongs to verifharness/...), e.g. sim.NewWorld setting time.Local while a
+	// ticker left over from an earlier case reads it. Not an access of the code under test.
+	Harness bool
+}
+
+func stdlibFunc(fn string) bool {
+	if strings.HasPrefix(fn, "verifharness/") {
+		return false
+	}
+	first := fn
+	if i := strings.Index(fn, "/"); i >= 0 {
+		first = fn[:i]
+	} else if i := strings.Index(fn, "."); i >= 0 {
+		first = fn[:i]
+	}
+	return !strings.Contains(first, ".")
 }
 
 var (
 	raceLogOff     int64 // bytes of the log already consumed
-	raceKnown      int64 // reports that matched a known finding
+	raceKnown      int64 // reports that matched a known finding or were made by the harness itself
 	raceUnknown    int64 // reports that did not
 	casesAborted   int64 // property evaluations that did not run to their end (oracle failures)
 	reAccessHeader = regexp.MustCompile(`^(Previous )?(read|write|atomic read|atomic write|Read|Write|Atomic read|Atomic write) at 0x[0-9a-f]+ by `)
-	reFileLine     = regexp.MustCompile(`^\s+(\S+\.go):(\d+)( \+0x[0-9a-f]+)?$`)
+	reFileLine     = regexp.MustCompile(`^\s+(\S+):(\d+)( \+0x[0-9a-f]+)?$`)
 )
 
 func raceLogFile() string {
@@ -83,12 +100,13 @@ func parseRaceLog(txt string) []raceReport {
 		}
 		lines := strings.Split(block, "\n")
 		var accesses []string
+		harness := false
 		for i := 0; i < len(lines); i++ {
 			if !reAccessHeader.MatchString(lines[i]) {
 				continue
 			}
 			// frames: "  func()" followed by "      file.go:NN +0x.."
-			first, inRepo := "", ""
+			first, inRepo, firstUser := "", "", ""
 			j := i + 1
 			for ; j+1 < len(lines) && strings.TrimSpace(lines[j]) != ""; j += 2 {
 				fn := strings.TrimSpace(lines[j])
@@ -101,6 +119,9 @@ func parseRaceLog(txt string) []raceReport {
 				if first == "" {
 					first = loc
 				}
+				if firstUser == "" && !stdlibFunc(fn) {
+					firstUser = fn
+				}
 				if inRepo == "" && strings.HasPrefix(fn, repoPkgPrefix) {
 					inRepo = loc
 				}
@@ -112,13 +133,16 @@ func parseRaceLog(txt string) []raceReport {
 				inRepo = "unknown-stack"
 			}
 			accesses = append(accesses, inRepo)
+			if strings.HasPrefix(firstUser, "verifharness/") {
+				harness = true
+			}
 			i = j
 		}
 		if len(accesses) > 2 {
 			accesses = accesses[:2]
 		}
 		sort.Strings(accesses)
-		res = append(res, raceReport{Key: strings.Join(accesses, "+"), Text: block})
+		res = append(res, raceReport{Key: strings.Join(accesses, "+"), Text: block, Harness: harness})
 	}
 	return res
 }
@@ -134,4 +158,61 @@ func mainWithRaceLog(m *testing.M) {
 	}
 	evid.Flush()
 	os.Exit(code)
+}
+
+const sampleRaceLog = `==================
+WARNING: DATA RACE
+Read at 0x00c002798ae0 by goroutine 1045:
+  github.com/idena-network/idena-go/core/state.(*StateDB).getStateGlobal()
+      /repo/core/state/statedb.go:898 +0x44
+  github.com/idena-network/idena-go/core/mempool.(*TxPool).put()
+      /repo/core/mempool/txpool.go:412 +0x1c4
+  verifharness/c14.TestConcurrent.func1.6()
+      /verif/harness/c14/conc_test.go:276 +0x5a4
+
+Previous write at 0x00c002798ae0 by goroutine 1046:
+  sync/atomic.StorePointer()
+      /usr/lib/go-1.23/src/runtime/race_amd64.s:354 +0x4
+  github.com/idena-network/idena-go/core/state.(*StateDB).setStateGlobalObject()
+      /repo/core/state/statedb.go:1063 +0xb3
+  github.com/idena-network/idena-go/blockchain.(*Blockchain).AddBlock()
+      /repo/blockchain/blockchain.go:453 +0x2f2
+
+Goroutine 1045 (running) created at:
+  verifharness/c14.TestConcurrent.func1()
+      /verif/harness/c14/conc_test.go:258 +0x2a9f
+==================
+==================
+WARNING: DATA RACE
+Write at 0x000004f0c098 by goroutine 45:
+  verifharness/internal/sim.NewWorld()
+      /verif/harness/internal/sim/world.go:253 +0x784
+  verifharness/c14.TestConcurrent.func1()
+      /verif/harness/c14/conc_test.go:101 +0x3d7
+
+Previous read at 0x000004f0c098 by goroutine 6069:
+  time.Now()
+      /usr/lib/go-1.23/src/time/time.go:1169 +0xcf
+  time.sendTime()
+      /usr/lib/go-1.23/src/time/sleep.go:187 +0x3c
+
+Goroutine 45 (running) created at:
+  testing.(*T).Run()
+      /usr/lib/go-1.23/src/testing/testing.go:1743 +0x825
+==================
+`
+
+// The parser is part of the trusted base of the concurrent test: check it on a canned log.
+func TestRaceLogParser(t *testing.T) {
+	reps := parseRaceLog(sampleRaceLog)
+	if len(reps) != 2 {
+		t.Fatalf("want 2 reports, got %d", len(reps))
+	}
+	want := "core/state.(*StateDB).getStateGlobal@statedb.go:898+core/state.(*StateDB).setStateGlobalObject@statedb.go:1063"
+	if reps[0].Key != want || reps[0].Harness {
+		t.Fatalf("report 0: key %q harness=%v, want %q false", reps[0].Key, reps[0].Harness, want)
+	}
+	if !reps[1].Harness {
+		t.Fatalf("report 1 (time.Local written by sim.NewWorld) not classified as made by the harness: %q", reps[1].Key)
+	}
 }
